@@ -35,7 +35,7 @@ pub fn run(ctx: &RunCtx) -> i32 {
         "C09" => c09::prop().run(ctx),
         "C10" => c10::run(ctx),
         "C11" => c11::run(ctx),
-        "C12" => c12::prop().run(ctx),
+        "C12" => c12::run(ctx),
         "C13" => c13::run(ctx),
         "C14" => c14::run(ctx),
         "C15" => c15::run(ctx),
@@ -64,7 +64,7 @@ pub fn replay(id: &str, v: &serde_json::Value) -> CaseResult {
         "C09" => c09::prop().replay(v),
         "C10" => c10::replay(v, false),
         "C11" => c11::replay(v),
-        "C12" => c12::prop().replay(v),
+        "C12" => c12::replay(v),
         "C13" => c13::replay(v),
         "C14" => c14::replay(v),
         "C15" => c15::replay(v),
